@@ -70,6 +70,14 @@ pub fn exec(f: ScenFn, ch: Chooser, trace: bool, want_sample: bool) -> RunOut {
     }
 }
 
+/// `exec` on a thread of its own: whatever thread-local state the library might keep starts out fresh, so a
+/// reproduction or a replay is not influenced by the runs executed before it on the calling thread.
+pub fn exec_isolated(f: ScenFn, ch: Chooser, trace: bool, want_sample: bool) -> RunOut {
+    std::thread::scope(|sc| {
+        sc.spawn(move || { install_panic_hook(); exec(f, ch, trace, want_sample) }).join()
+    }).unwrap_or_else(|_| RunOut { result: Ok(()), harness_error: Some("harness: isolated execution thread panicked".into()), cx: Ctx::new(Chooser::replay(Vec::new()), false) })
+}
+
 fn scen_for(def: &PropDef, tier: Tier, run: u64) -> (usize, u64) {
     let mut acc = 0;
     for (i, s) in def.scens.iter().enumerate() {
@@ -169,7 +177,7 @@ pub fn minimise(f: ScenFn, choices: Vec<u32>, key: &str, budget: usize) -> (Vec<
     let same = |list: &[u32], tries: &mut usize| -> Option<usize> {
         if started.elapsed().as_secs() >= 45 { *tries = (*tries).max(budget + 1000); return None; }
         *tries += 1;
-        let out = exec(f, Chooser::replay(list.to_vec()), false, false);
+        let out = exec_isolated(f, Chooser::replay(list.to_vec()), false, false);
         match out.result {
             Err(v) if v.key() == key && out.harness_error.is_none() => Some(out.cx.ch.position()),
             _ => None,
@@ -385,6 +393,7 @@ pub fn run_property(def: &PropDef, cfg: &BatchCfg) -> i32 {
     let mut exit = 0;
     let mut violations = 0u64;
     let mut known_hits = Vec::new();
+    let mut unreproduced: Vec<(u64, usize, u64, String, String)> = Vec::new();
     for (_k, f) in &a.found {
         let vkey = f.v.key();
         if let Some(kf) = known.iter().find(|k| k.property == def.id && k.status == "known" && vkey.starts_with(&k.key)) {
@@ -395,23 +404,64 @@ pub fn run_property(def: &PropDef, cfg: &BatchCfg) -> i32 {
         exit = 1;
         let scen = &def.scens[f.scen];
         // reproduce, minimise, write replay files
-        let orig = exec(scen.f, Chooser::replay(f.choices.clone()), true, false);
+        let orig = exec_isolated(scen.f, Chooser::replay(f.choices.clone()), true, false);
         let reproduced = matches!(&orig.result, Err(v) if v.key() == vkey);
         let dir = cfg.verif_dir.join("replays");
         let base = format!("{}-{}-{}-{}{}", def.id, scen.name, cfg.seed, f.idx, if build_profile() == "relna" { "-relna" } else { "" });
         let orig_path = dir.join(format!("{base}.orig.json"));
         write_file(&orig_path, &replay_json(def, scen, cfg.seed, f.idx, &f.choices, &f.v, orig.cx.digest, &orig.cx.events).to_string_pretty());
         if !reproduced {
-            eprintln!("HARNESS-ERROR property={} violation {} did not reproduce from its own choice list (nondeterminism)", def.id, vkey);
-            return 2;
+            // The run violated the oracle inside the batch but not when executed alone: either the harness is
+            // nondeterministic, or the library carries state from one run to the next (a thread-local or global).
+            // Decided below, once the classes that do reproduce are known.
+            violations -= 1;
+            unreproduced.push((f.run, f.scen, f.idx, vkey.clone(), f.v.detail.clone()));
+            continue;
         }
         let (min, tries) = minimise(scen.f, f.choices.clone(), &vkey, 600);
-        let m = exec(scen.f, Chooser::replay(min.clone()), true, false);
+        let m = exec_isolated(scen.f, Chooser::replay(min.clone()), true, false);
         let mv = match &m.result { Err(v) => v.clone(), Ok(()) => f.v.clone() };
         let path = dir.join(format!("{base}.json"));
         write_file(&path, &replay_json(def, scen, cfg.seed, f.idx, &min, &mv, m.cx.digest, &m.cx.events).to_string_pretty());
         println!("violation class {} scenario {} run {} (choices {} -> {} after {} re-executions): {}", vkey, scen.name, f.idx, f.choices.len(), min.len(), tries, mv.detail);
         println!("VIOLATION property={} replay={}", def.id, path.display());
+    }
+    if !unreproduced.is_empty() {
+        unreproduced.sort();
+        if violations > 0 {
+            exit = 1;
+            for (_, si, idx, key, _) in &unreproduced {
+                println!("note: violation class {key} (scenario {} run {idx}) was observed in the batch but does not recur when that run is executed alone - the library carries state from one run to the next; the classes reported above reproduce from their replay files", def.scens[*si].name);
+            }
+        } else {
+            // nothing reproduces alone: replay the sequence of runs that preceded the failing one in its chunk, on a fresh thread
+            let (run, si, idx, key, detail) = unreproduced[0].clone();
+            let scen = &def.scens[si];
+            let from_run = run - run % 64;
+            let from_idx = idx - (run - from_run).min(idx);
+            let f = scen.f;
+            let seeds: Vec<u64> = (from_idx..=idx).map(|i| run_seed(cfg.seed, def, scen, i)).collect();
+            let last = std::thread::spawn(move || {
+                install_panic_hook();
+                let mut last = None;
+                for s in seeds { last = Some(exec(f, Chooser::record(s), false, false).result); }
+                last
+            }).join().ok().flatten();
+            let again = matches!(&last, Some(Err(v)) if v.key() == key);
+            if again {
+                violations += 1;
+                exit = 1;
+                let v = Violation::new(key.split('@').next().unwrap_or(&key), key.split('@').nth(1).unwrap_or(""), format!("{detail} [recurs only after runs {from_idx}..{idx} of the scenario were executed on the same thread: state carried between calls]"));
+                let path = cfg.verif_dir.join("replays").join(format!("{}-{}-{}-{}-seq.json", def.id, scen.name, cfg.seed, idx));
+                let j = replay_json(def, scen, cfg.seed, idx, &[], &v, 0, &[]).set("seeded", J::Bool(true)).set("run_from", J::i(from_idx));
+                write_file(&path, &j.to_string_pretty());
+                println!("violation class {key} scenario {} runs {from_idx}..={idx} (sequence replay): {}", scen.name, v.detail);
+                println!("VIOLATION property={} replay={}", def.id, path.display());
+            } else {
+                eprintln!("HARNESS-ERROR property={} violation {} did not reproduce from its own choice list nor from the run sequence before it (nondeterminism)", def.id, key);
+                return 2;
+            }
+        }
     }
     // D5: Miri's seeded scheduler (C13 / C14 thread clauses)
     let mut miri_json = None;
@@ -529,23 +579,33 @@ pub fn replay_file(defs: &[PropDef], path: &Path) -> i32 {
         let idx = j.get("run_index").and_then(J::as_u64).unwrap_or(0);
         let limit_s: u64 = std::env::var("VERIF_HANG_S").ok().and_then(|s| s.parse::<u64>().ok()).unwrap_or(300);
         let f = scen.f;
-        let rs = run_seed(seed, def, scen, idx);
+        let run_from = j.get("run_from").and_then(J::as_u64).unwrap_or(idx);
+        let seeds: Vec<u64> = (run_from..=idx).map(|i| run_seed(seed, def, scen, i)).collect();
+        let is_seq = j.get("run_from").is_some();
         let (tx, rx) = std::sync::mpsc::channel();
         std::thread::spawn(move || {
             install_panic_hook();
-            let out = exec(f, Chooser::record(rs), false, false);
-            let _ = tx.send(match out.result { Ok(()) => "no violation".to_string(), Err(v) => format!("{} -- {}", v.key(), v.detail) });
+            let mut last = (String::new(), "no violation".to_string());
+            for rs in seeds {
+                let out = exec(f, Chooser::record(rs), false, false);
+                last = match out.result { Ok(()) => (String::new(), "no violation".to_string()), Err(v) => (v.key(), format!("{} -- {}", v.key(), v.detail)) };
+            }
+            let _ = tx.send(last);
         });
         return match rx.recv_timeout(std::time::Duration::from_secs(limit_s)) {
+            Ok((k, r)) if is_seq => {
+                println!("replayed runs {run_from}..={idx}: {r}");
+                if k == want_key { println!("VIOLATION property={} replay={}", def.id, path.display()); 1 } else { eprintln!("replay mismatch: file says {want_key}"); 2 }
+            }
+            Ok((_, r)) => { eprintln!("replay mismatch: the run finished ({r}); file says {want_key}"); 2 }
             Err(_) => {
                 println!("replayed: {want_key} -- the run did not finish within {limit_s} s");
                 println!("VIOLATION property={} replay={}", def.id, path.display());
                 1
             }
-            Ok(r) => { eprintln!("replay mismatch: the run finished ({r}); file says {want_key}"); 2 }
         };
     }
-    let out = exec(scen.f, Chooser::replay(choices), true, true);
+    let out = exec_isolated(scen.f, Chooser::replay(choices), true, true);
     for e in &out.cx.events {
         println!("  {e}");
     }
